@@ -307,4 +307,78 @@ theorem getRootOfUnity_two_pow (P : Params F) (hP : P.WF) (a : Nat) (ha : a ≤ 
 
 end Field
 
+/-! ## domains -/
+section Field
+variable {F : Type} [Field F] [DecidableEq F]
+
+/-- the invariant of a constructed domain (any offset): the nine struct fields are coherent -/
+structure Domain.Good (d : Domain F) : Prop where
+  size_pos : 0 < d.size
+  size_lt : d.size < 2 ^ 64
+  sizeF : d.sizeAsFieldElement = (d.size : F)
+  sizeInv : d.sizeInv * (d.size : F) = 1
+  gen_order : orderOf d.groupGen = d.size
+  genInv : d.groupGenInv * d.groupGen = 1
+  offInv : d.offsetInv * d.offset = 1
+  offPow : d.offsetPowSize = d.offset ^ d.size
+
+theorem natCast_ne_zero_of_orderOf {g : F} {N : Nat} (hN : 0 < N) (hg : orderOf g = N) :
+    ((N : Nat) : F) ≠ 0 := by
+  have hp : IsPrimitiveRoot g N := hg ▸ IsPrimitiveRoot.orderOf g
+  have : NeZero N := ⟨hN.ne'⟩
+  exact (hp.neZero').ne
+
+theorem ne_zero_of_orderOf {g : F} {N : Nat} (hN : 0 < N) (hg : orderOf g = N) : g ≠ 0 := by
+  rintro rfl
+  have h1 : (0 : F) ^ N = 1 := hg ▸ pow_orderOf_eq_one (0 : F)
+  rw [zero_pow hN.ne'] at h1
+  exact zero_ne_one h1
+
+/-- the record built at the end of `Radix2EvaluationDomain::new` / `MixedRadixEvaluationDomain::new` -/
+def mkDom (g : F) (N lg : Nat) : Domain F :=
+  { size := N, logSizeOfGroup := lg, sizeAsFieldElement := (N : F),
+    sizeInv := ((N : F))⁻¹, groupGen := g, groupGenInv := g⁻¹,
+    offset := 1, offsetInv := 1, offsetPowSize := 1 }
+
+theorem mkDomain_good {g : F} {N lg : Nat} (hN : 0 < N) (hlt : N < 2 ^ 64) (hg : orderOf g = N) :
+    inv? ((N : Nat) : F) = some ((N : F))⁻¹ ∧ inv? g = some g⁻¹ ∧ Domain.Good (mkDom g N lg) := by
+  have h1 := natCast_ne_zero_of_orderOf hN hg
+  have h2 := ne_zero_of_orderOf hN hg
+  refine ⟨inv?_ne h1, inv?_ne h2, ⟨hN, hlt, rfl, ?_, hg, ?_, ?_, ?_⟩⟩
+  · exact inv_mul_cancel₀ h1
+  · exact inv_mul_cancel₀ h2
+  · simp [mkDom]
+  · simp [mkDom]
+
+/-- the complete specification of `Radix2EvaluationDomain::new` under well-formed parameters -/
+theorem radix2New_cases (P : Params F) (hP : P.WF) (n : Nat) :
+    (radix2New P n = .ok none ∧ (P.twoAdicity < Nat.clog 2 n ∨ 64 ≤ Nat.clog 2 n)) ∨
+    (Nat.clog 2 n ≤ P.twoAdicity ∧ Nat.clog 2 n < 64 ∧
+      ∃ g : F, orderOf g = 2 ^ Nat.clog 2 n ∧
+        radix2New P n = .ok (some (mkDom g (2 ^ Nat.clog 2 n) (Nat.clog 2 n)))) := by
+  unfold radix2New
+  rw [nextPowerOfTwo_eq]
+  by_cases h64 : Nat.clog 2 n < 64
+  · rw [if_pos h64]
+    simp only [trailingZeros_two_pow _ h64]
+    by_cases hs : Nat.clog 2 n ≤ P.twoAdicity
+    · right
+      refine ⟨hs, h64, ?_⟩
+      obtain ⟨g, hg, hord⟩ := getRootOfUnity_two_pow P hP _ hs h64
+      obtain ⟨e1, e2, -⟩ := mkDomain_good (lg := Nat.clog 2 n) (Nat.two_pow_pos _)
+        (Nat.pow_lt_pow_right (by norm_num) h64) hord
+      refine ⟨g, hord, ?_⟩
+      rw [if_neg (by omega), hg]
+      simp only [e1, e2, mkDom]
+    · left
+      rw [if_pos (by omega)]
+      exact ⟨rfl, Or.inl (by omega)⟩
+  · left
+    rw [if_neg h64]
+    refine ⟨?_, Or.inr (by omega)⟩
+    simp only [trailingZeros_zero, getRootOfUnity_zero P hP]
+    split <;> rfl
+
+end Field
+
 end Ark.Fft
